@@ -46,7 +46,7 @@ META = {
                     'non-auth exceptions (bad hex in DATA, non-ASCII command '
                     'bytes) reach the reactor, which closes the connection'],
     'decided': ['D1 safety of authentication', 'D2 response table',
-                'D3 limits (rejections, first byte, line length)',
+                'D3 limits (rejections - the count is never lowered -, first byte, line length)',
                 'D4 a mechanism answers OK only on its accepting branch '
                 '(cookie: computed hash == received hash, no exception '
                 'swallowed on the way; EXTERNAL: peer credentials present)',
@@ -284,6 +284,24 @@ def run(ctx):
             'over' if cnt[1] >= MAXR else 'under'), ok, msg, trace_to(t))
     if n_lim < 6:
         raise AnalysisError('rejection-limit rule matched %d rows' % n_lim)
+    # "more than five rejections" counts rejections on the CONNECTION: no
+    # transition may lower the counter (an OK that resets it lets a peer
+    # alternate accepted and abandoned exchanges for ever)
+    for (pre, cmd, outs, post), t in rows.items():
+        if post in (CLOSE, 'EXC'):
+            continue
+        a, b = m.get(pre, 'reject_count'), m.get(post, 'reject_count')
+        if a[0] != 'c' or b is None:
+            continue
+        ok = b[0] == 'c' and b[1] >= a[1]
+        ctx.ob('C06.D3', where(t), 'reject-count-never-lowered', ok,
+               'the rejection counter goes from %s to %s on %s in state %s: '
+               'the limit of %d then counts only the rejections since the '
+               'last accepted exchange, and a peer that lets a mechanism '
+               'succeed and cancels it is never cut off' % (
+                   a[1], b[1] if b[0] == 'c' else b, cmd,
+                   field(m, pre, 'state'), MAXR), trace_to(t),
+               nontrivial=False)
     _line_mode_limits(ctx)
     _mechanism_acceptance(ctx, mechs)
     _text_bytes_agreement(ctx, mechs)
